@@ -735,7 +735,16 @@ fn dfs<S: Sch, C: Coll<S>>(rep: &mut Reporter, st: &St<S, C>, ops: &mut Vec<Op>,
     }
 }
 
+/// Under Miri only the std-hasher instantiations and the column store are run (each call costs
+/// milliseconds there; the other hashers change no memory-safety-relevant path).
+fn miri_skips<S: Sch, C: Coll<S>>(args: &Args) -> bool {
+    args.tier == Tier::Miri && !(C::HASHER == "RandomState" || C::HASHER == "-")
+}
+
 fn exhaustive<S: Sch, C: Coll<S>>(rep: &mut Reporter, args: &Args, depth: usize, case_no: &mut usize) {
+    if miri_skips::<S, C>(args) {
+        return;
+    }
     *case_no += 1;
     if !args.in_shard(*case_no) {
         return;
@@ -803,11 +812,14 @@ fn sweep_cell<S: Sch, C: Coll<S>>(rep: &mut Reporter, n: usize, k: usize, build:
 }
 
 fn sweep<S: Sch, C: Coll<S>>(rep: &mut Reporter, args: &Args, case_no: &mut usize) {
+    if miri_skips::<S, C>(args) {
+        return;
+    }
     let miri = args.tier == Tier::Miri;
     let mut bad = 0u64;
     // Under Miri only a handful of cells around the first thresholds (3|4, 7|8, 14|16 entries).
     let cells: Vec<(usize, usize)> = if miri {
-        vec![(3, 2), (3, 4), (7, 8), (14, 3), (0, 5)]
+        vec![(3, 2), (7, 8)]
     } else {
         (0..=40).flat_map(|n| (0..=80).map(move |k| (n, k))).collect()
     };
@@ -816,8 +828,12 @@ fn sweep<S: Sch, C: Coll<S>>(rep: &mut Reporter, args: &Args, case_no: &mut usiz
             for content in 0..3 {
                 for exact in [true, false] {
                     if miri {
+                        // base variant + one variant with duplicates and no size hint
+                        if !((build == 0 && content == 0 && exact) || (build == 1 && content == 1 && !exact)) {
+                            continue;
+                        }
                         *case_no += 1;
-                        if !args.in_shard(*case_no) || (build + content + exact as usize) % 3 != 0 {
+                        if !args.in_shard(*case_no) {
                             continue;
                         }
                     }
@@ -845,8 +861,8 @@ fn sweep<S: Sch, C: Coll<S>>(rep: &mut Reporter, args: &Args, case_no: &mut usiz
 // ---------------------------------------------------------------------------------------------
 // family 3: random histories over {0..3}^k
 
-fn random_history<S: Sch>(rng: &mut Rng, max_ops: usize) -> Vec<Op> {
-    let dom = domain::<S>(4);
+fn random_history<S: Sch>(rng: &mut Rng, max_ops: usize, k: usize) -> Vec<Op> {
+    let dom = domain::<S>(k);
     // a bias towards few distinct tuples makes duplicates frequent; otherwise the table grows
     let narrow = rng.chance(1, 3);
     let pick = |rng: &mut Rng| -> Row {
@@ -859,7 +875,7 @@ fn random_history<S: Sch>(rng: &mut Rng, max_ops: usize) -> Vec<Op> {
         let op = if x < 40 {
             Op::Insert(pick(rng))
         } else if x < 75 {
-            let k = if rng.chance(1, 4) { rng.below(40) } else { rng.below(9) };
+            let k = if rng.chance(1, 4) && max_ops > 8 { rng.below(40) } else { rng.below(9) };
             Op::Extend((0..k).map(|_| pick(rng)).collect(), rng.chance(2, 3))
         } else if x < 80 {
             Op::Drain
@@ -898,10 +914,10 @@ macro_rules! for_all_types {
     }};
 }
 
-fn random_one<S: Sch, C: Coll<S>>(rep: &mut Reporter, which: usize, idx: &mut usize, ops_by_schema: &[Vec<Op>; 3]) {
+fn random_one<S: Sch, C: Coll<S>>(rep: &mut Reporter, which: usize, idx: &mut usize, ops_by_schema: &[Vec<Op>; 3], k: usize) {
     if *idx == which {
         let ops = &ops_by_schema[S::ARITY - 1];
-        let probe = domain::<S>(4);
+        let probe = domain::<S>(k);
         run_history::<S, C>(rep, "random", ops, &probe);
     }
     *idx += 1;
@@ -949,10 +965,11 @@ fn main() {
 
     // (1) exhaustive histories over {0,1}^k, all operations of the alphabet, every prefix observed
     let t0 = std::time::Instant::now();
-    let depth = args.budget(4, 5, 2);
+    // Miri: depth 1 in a single process, depth 2 when the work is spread over >= 8 shards
+    let depth = args.budget(4, 5, if args.shard.1 >= 8 { 2 } else { 1 });
     let mut case_no = 0usize;
     for_all_types!(exhaustive, &mut rep, &args, depth, &mut case_no);
-    rep.extra("exhaustive_depth", json!({"(u8,)": args.budget(5, 5, 2), "(u8,u8)": args.budget(5, 5, 2), "(u8,u16,u8)": depth}));
+    rep.extra("exhaustive_depth", json!({"(u8,)": args.budget(5, 5, depth), "(u8,u8)": args.budget(5, 5, depth), "(u8,u16,u8)": depth}));
     let t1 = t0.elapsed().as_secs_f64();
 
     // (2) growth sweep: the full 41 x 81 grid x 3 ways to build the existing content x 3 kinds of
@@ -962,15 +979,18 @@ fn main() {
 
     let t2 = t0.elapsed().as_secs_f64();
     // (3) random histories
-    let n_random = args.budget(5_000, 200_000, 6);
+    let n_random = args.budget(5_000, 200_000, 3 * args.shard.1);
+    let max_ops = if miri { 8 } else { 30 };
+    let dom_k = if miri { 2 } else { 4 };
     for i in 0..n_random {
-        let which = rng.below(21);
-        let ops = [random_history::<S1>(&mut rng, 30), random_history::<S2>(&mut rng, 30), random_history::<S3>(&mut rng, 30)];
+        // under Miri: cycle through the RandomState / column instantiations only
+        let which = if miri { [0, 3, 6, 7, 10, 13, 14, 17, 20][i % 9] } else { rng.below(21) };
+        let ops = [random_history::<S1>(&mut rng, max_ops, dom_k), random_history::<S2>(&mut rng, max_ops, dom_k), random_history::<S3>(&mut rng, max_ops, dom_k)];
         if miri && !args.in_shard(i) {
             continue;
         }
         let mut idx = 0usize;
-        for_all_types!(random_one, &mut rep, which, &mut idx, &ops);
+        for_all_types!(random_one, &mut rep, which, &mut idx, &ops, dom_k);
     }
 
     rep.extra("phase_seconds", json!({"exhaustive": t1, "sweep": t2 - t1, "random": t0.elapsed().as_secs_f64() - t2}));
